@@ -183,7 +183,7 @@ fn main() {
             let v = Violation {
                 props: vec!["C09", "C08"],
                 sig: "progress:call-blocks-forever".into(),
-                detail: format!("`{}` has not returned and the process consumed no CPU time for 8 s: the calling thread is blocked inside the call and no other thread exists to unblock it", last),
+                detail: format!("`{}` has not returned and for 8 s the calling thread was seen blocked (kernel state S/D, never runnable) and they consumed no CPU time: it is blocked inside the call and no other thread exists to unblock it [{}]", last, mmv::report::thread_diagnostics(&idle.watched())),
                 op_index: text.lines().count().saturating_sub(2),
             };
             if prop == "all" || v.props.iter().any(|p| *p == prop) {
@@ -198,7 +198,7 @@ fn main() {
             } else {
                 report.write(&out);
             }
-            std::process::exit(0);
+            mmv::report::exit_now(0);
         }
     }
     let _ = worker.join();
